@@ -305,3 +305,16 @@ Fixpoint render_names (names : list key) : list ptok :=
 
 Definition render_pipe (ex : bool) (names : list key) : list ptok :=
   TBar :: TFields :: (if ex then [TExcept] else []) ++ render_names names.
+
+(* ------------------------------------------------------------------ the per-source fetch request *)
+(* Ingestor.makeFetchReq: the request built for one source carries the filter as given, and
+   building it leaves the caller's filter (shared by all sources of FetchDocsStream) unchanged:
+   a pure function of (filter, ids). [fetch_reqs ff n] = the n requests and the filter afterwards. *)
+Definition fetch_req_filter (ff : pfilter) : pfilter := ff.
+
+Definition fetch_reqs (ff : pfilter) (nsources : nat) : list pfilter * pfilter :=
+  (repeat (fetch_req_filter ff) nsources, ff).
+
+(* same set of names (order and repetitions ignored) *)
+Definition same_names (a b : list key) : bool :=
+  forallb (fun k => memb k b) a && forallb (fun k => memb k a) b.
